@@ -861,6 +861,8 @@ def column_value(S, l, TXT, D, notes):
                 proj = it[2][1]
             if is_call(base, "char_indices") and strip(base[2][0]) == TXT:
                 cands.append(("position", t, proj))
+            elif is_call(base, "char_indices", "chars") and through(base[2][0], ("trim_end", "trim", "trim_start", "trim_end_matches", "trim_matches", "trim_start_matches")) == TXT:
+                cands.append(("trimmed", t, strip(base[2][0])))
         if is_call(t, "count") and len(t[2]) == 1:
             it = strip(t[2][0])
             if is_call(it, "take") and len(it[2]) == 2 and is_call(strip(it[2][0]), "chars") and strip(strip(it[2][0])[2][0]) == TXT:
@@ -875,6 +877,10 @@ def column_value(S, l, TXT, D, notes):
         notes.append("col: column computation not recognised (%d candidate searches)" % len(cands))
         return None, "undecided"
     kind, t, x = cands[0]
+    if kind == "trimmed":
+        return ("trimmed-line", "the column is searched in %s, not in the line itself: for a position inside the whitespace the trim removes (trailing blanks or "
+                "tabs, a whitespace-only line, the \\r of a CRLF line) no character starts at the offset and the column collapses to the trimmed length "
+                "(text \"  \", position 2 is column 3)" % mir.show(x)[:80]), "wrong"
     if kind == "take":
         if lin(x) == D:
             return ("bytes-as-chars", "the column is chars().take(d).count() with d the *byte* offset of the position in its line: for a line with a multi-byte "
